@@ -62,10 +62,7 @@ def esi1(ctx, prog, cfg):
         mm(ctx, "ESI1", prog, "<%s as ExactSizeIterator>::len" % ty,
            [r"return Add\(<\[T\]>::len\(\(\*self\)\.left\), <\[T\]>::len\(\(\*self\)\.right\)\)"], cfg, "len = right.len() + left.len()",
            "`len` of %s does not count both remaining slices: it no longer equals the number of elements not yet produced" % ty)
-        ln = r"<%s as ExactSizeIterator>::len\(self\)" % ty.replace("<", "<").replace(">", ">")
-        mm(ctx, "ESI1", prog, "<%s as Iterator>::size_hint" % ty,
-           [r"call " + ln, r"return tuple::\{0: " + ln + r", 1: Option::Some\{0: " + ln + r"\}\}"], cfg, "size_hint = (len, Some(len))",
-           "`size_hint` of %s is not `(len, Some(len))` of one `self.len()` call: the exact-size contract is broken" % ty)
+        size_hint_rule(ctx, prog, cfg, "ESI1", ty, "`size_hint` of %s is not `(len, Some(len))`: the exact-size contract is broken" % ty)
         for meth, take, first, second, what in (
                 ("<%s as Iterator>::next" % ty, "slice_take_first" + sfx, "right", "left", "next: first of right, else first of left"),
                 ("<%s as DoubleEndedIterator>::next_back" % ty, "slice_take_last" + sfx, "left", "right", "next_back: last of left, else last of right")):
@@ -96,29 +93,123 @@ def esi1(ctx, prog, cfg):
 
 
 def first_then_second(ctx, prog, cfg, meth, take, first, second, what):
-    """`take(&mut self.<first>)`, and only when that is None `take(&mut self.<second>)`; the result is returned unchanged.
-    Two spellings are accepted: the if-let chain and `take(first).or_else(|| take(second))`."""
+    """A = take(&mut self.<first>) is evaluated exactly once, unconditionally; B = take(&mut self.<second>) at most
+    once and only where the facts say A is None (directly, or as the closure of `A.or_else(..)`); every returned
+    value is A or B passed on unchanged: `Some(X.0)` where X is Some, `None` where B is None, X itself, or
+    `A.or_else(|| B)`. Decided from the facts at the return sites, whatever the spelling (if-let chain, match,
+    combinator)."""
+    from .. import common, guards
+
     f = ctx.need_fn(prog, meth, "ESI1")
     if f is None:
         return
-    A = r"%s\(&self->%s\)" % (take, first)
-    B = r"%s\(&self->%s\)" % (take, second)
-    chain = [r"call " + A, r"guard discr\(%s\)" % A, r"return Option::Some\{0: %s as Some\.0\}" % A,
-             r"call " + B, r"guard discr\(%s\)" % B, r"return Option::Some\{0: %s as Some\.0\}" % B, r"return Option::None\{\}"]
-    orelse = [r"call " + A, r"call core::option::Option::or_else\(%s, \{closure#0\}::\{0: &self->%s\}\)" % (A, second),
-              r"return Option::or_else\(%s, \{closure#0\}::\{0: &self->%s\}\)" % (A, second)]
-    clos = [r"call %s\(_1\.0\)" % take, r"return %s\(_1\.0\)" % take]
-    import re
-    ev = shapes.events(f, guards=True)
-    def m(pats, evs):
-        return len(pats) == len(evs) and all(re.fullmatch(p, e) for p, e in zip(pats, evs))
-    ok, by = m(chain, ev), "if-let chain"
-    if not ok and m(orelse, ev):
-        c = prog.fn(meth + "::{closure#0}")
-        ok, by = c is not None and m(clos, shapes.events(c, guards=True)), "or_else closure"
-    ctx.check(ok, "ESI1", meth, what, f.loc,
-              "`%s` does not take from `%s` and only then from `%s`, returning what it took" % (meth, first, second),
-              by + ": " + " ; ".join(e[:60] for e in ev), cfg, detail="\n".join("  " + e[:200] for e in ev[:10]))
+    why = []
+
+    def is_take(e, fld):
+        e = mir.strip_casts(e)
+        if not (isinstance(e, tuple) and e[:2] == ("call", take) and len(e[2]) == 1):
+            return False
+        a = mir.strip_casts(e[2][0])
+        return isinstance(a, tuple) and a[0] == "ref" and isinstance(a[1], tuple) and a[1][0] == "place" and a[1][1] == ("param", 1) and tuple(a[1][2]) == (fld,)
+
+    callsA = [b for b, t_ in f.calls_to(take, unwind=False) if is_take(f.deep_simplify(f.call_expr(b)), first)]
+    callsB = [b for b, t_ in f.calls_to(take, unwind=False) if is_take(f.deep_simplify(f.call_expr(b)), second)]
+    other = [mir.callee_path(t_) for b, t_ in f.calls(False) if b not in callsA and b not in callsB and mir.callee_path(t_) != "core::option::Option::or_else"]
+    if other:
+        why.append("also calls %s" % other[:3])
+    G = guards.Guards(f)
+    if len(callsA) != 1 or any(not f.dominates(callsA[0], rb, False) for rb in f.return_blocks()):
+        why.append("`%s(&mut self.%s)` is not evaluated exactly once on every path" % (take, first))
+    else:
+        A = f.deep_simplify(f.call_expr(callsA[0]))
+
+        def variant_known(b, X, v):
+            return any(a_[0] == "is" and a_[1] == X and a_[2] == v for a_ in G.facts_at(b)) or \
+                any(a_[0] == "isnot" and a_[1] == X and a_[2] == 1 - v for a_ in G.facts_at(b))
+
+        Bx = None
+        if len(callsB) > 1:
+            why.append("`%s(&mut self.%s)` is called %d times" % (take, second, len(callsB)))
+        elif callsB:
+            Bx = f.deep_simplify(f.call_expr(callsB[0]))
+            if not variant_known(callsB[0], A, 0):
+                why.append("`%s` is taken from where `%s` is not known to be exhausted" % (second, first))
+        seen_second = False
+        for (b, i_, k, payload) in common.ret_assignments(f):
+            if k == "call":
+                p_ = mir.callee_path(payload)
+                if b in callsB:
+                    seen_second = True
+                    continue
+                if p_ == "core::option::Option::or_else":
+                    a = [f.deep_simplify(x) for x in f.call_args(b)]
+                    c = prog.fn(meth + "::{closure#0}")
+                    okc = mir.strip_casts(a[0]) == A and c is not None
+                    if okc:
+                        cap = mir.fmt(a[1], f)
+                        cc = [(cb, ct) for cb, ct in c.calls(False)]
+                        okc = ("&self->%s" % second) in cap and len(cc) == 1 and mir.callee_short(cc[0][1]) == take and \
+                            mir.fmt(c.deep_simplify(c.call_args(cc[0][0])[0]), c) in ("_1.0", "(*_1).0") and \
+                            [mir.strip_casts(c.deep_simplify(c.return_expr(rb)))[:2] for rb in c.return_blocks()] == [("call", take)]
+                    if not okc:
+                        why.append("`or_else` is not `A.or_else(|| %s(&mut self.%s))`" % (take, second))
+                    seen_second = True
+                    continue
+                why.append("returns the result of `%s`" % p_)
+                continue
+            v = common.variant_of_rv(payload)
+            e = mir.strip_casts(f.deep_simplify(f.rvalue_expr(payload, b, i_)))
+            if v is not None and v[0] == "Some":
+                x = mir.strip_casts(dict(e[3]).get("0")) if isinstance(e, tuple) and e[0] == "agg" else None
+                src = x[1][1] if isinstance(x, tuple) and x[0] == "field" and x[2] == "0" and isinstance(x[1], tuple) and x[1][0] == "as" and x[1][2] == "Some" else None
+                if src == A and variant_known(b, A, 1):
+                    continue
+                if Bx is not None and src == Bx and variant_known(b, Bx, 1):
+                    seen_second = True
+                    continue
+                why.append("returns Some(`%s`), which is not the element just taken" % mir.fmt(x, f)[:60])
+            elif v is not None and v[0] == "None":
+                if Bx is not None and variant_known(b, Bx, 0):
+                    seen_second = True
+                    continue
+                why.append("returns None without `%s` being exhausted too" % second)
+            elif e == A and False:
+                continue
+            else:
+                why.append("returns `%s`" % mir.fmt(e, f)[:60])
+        if not seen_second and not why:
+            why.append("never falls back to `%s`" % second)
+    ctx.check(not why, "ESI1", meth, what, f.loc,
+              "`%s` does not take from `%s` and only then from `%s`, returning what it took: %s" % (meth, first, second, "; ".join(why)),
+              "A = %s(%s) once; %s only where A is None; returns A / B unchanged" % (take, first, second), cfg)
+
+
+def size_hint_rule(ctx, prog, cfg, rule, ty, msg):
+    """size_hint = (L, Some(L)) where L is this type's own exact length: a call of its ExactSizeIterator::len(self), or
+    the very expression that `len` returns"""
+    f = ctx.need_fn(prog, "<%s as Iterator>::size_hint" % ty, rule)
+    ln = ctx.need_fn(prog, "<%s as ExactSizeIterator>::len" % ty, rule)
+    if f is None or ln is None:
+        return
+    from .. import skeleton
+
+    lret = [skeleton.canon(ln.deep_simplify(ln.return_expr(rb)), lambda s: s, 1) for rb in ln.return_blocks()]
+    ok, why = len(f.return_blocks()) == 1 and len(lret) == 1, "return sites"
+    if ok:
+        e = mir.strip_casts(f.deep_simplify(f.return_expr(f.return_blocks()[0])))
+        ok = isinstance(e, tuple) and e[0] == "agg" and e[1] == "tuple" and len(e[3]) == 2
+        if ok:
+            lo = mir.strip_casts(e[3][0][1])
+            hi = mir.strip_casts(e[3][1][1])
+            hi_in = mir.strip_casts(dict(hi[3]).get("0")) if isinstance(hi, tuple) and hi[0] == "agg" and hi[2] == "Some" else None
+
+            def is_len(x):
+                if isinstance(x, tuple) and x[:2] == ("call", ln.short) and mir.strip_casts(x[2][0]) == ("param", 1):
+                    return True
+                return skeleton.canon(x, lambda s: s, 1) == lret[0]
+            ok = is_len(lo) and hi_in is not None and is_len(hi_in)
+            why = "(%s, %s)" % (mir.fmt(lo, f)[:50], mir.fmt(hi, f)[:60])
+    ctx.check(ok, rule, f.short, "size_hint = (len, Some(len))", f.loc, msg + " (%s)" % why, "both bounds are this iterator's exact length", cfg)
 
 
 def into1(ctx, prog, cfg):
@@ -131,9 +222,7 @@ def into1(ctx, prog, cfg):
        "IntoIter::next_back is not `self.inner.pop_back()`")
     mm(ctx, "INTO1", prog, "<IntoIter<N, T> as ExactSizeIterator>::len",
        [r"return \(\*&self->inner\)\.size"], cfg, "len = inner.len()", "IntoIter::len is not `self.inner.len()`")
-    mm(ctx, "INTO1", prog, "<IntoIter<N, T> as Iterator>::size_hint",
-       [r"return tuple::\{0: \(\*&self->inner\)\.size, 1: Option::Some\{0: \(\*&self->inner\)\.size\}\}"], cfg,
-       "size_hint = (len, Some(len))", "IntoIter::size_hint is not `(inner.len(), Some(inner.len()))`")
+    size_hint_rule(ctx, prog, cfg, "INTO1", "IntoIter<N, T>", "IntoIter::size_hint is not `(inner.len(), Some(inner.len()))`")
     mm(ctx, "INTO1", prog, "IntoIter::new", [r"return IntoIter::IntoIter\{inner: inner\}"], cfg, "stores the buffer", "IntoIter::new does not store its argument as `inner`")
     mm(ctx, "INTO1", prog, "<CircularBuffer<N, T> as IntoIterator>::into_iter", [r"return IntoIter::IntoIter\{inner: self\}"], cfg,
        "into_iter = IntoIter::new(self)", "into_iter does not move the buffer into the owning iterator")
